@@ -112,6 +112,10 @@ def event_bytes(ev, ids):
     elif ev == "APP-ans":
         m = N.app_answer(h)
         e = m.e2e
+    if ev.startswith("APP-req") and m is not None:
+        # the command flags besides R are the sender's business: proxiable or not (P), retransmitted or not (T) - to whom a
+        # request is addressed does not depend on them
+        m.flags = (0xc0, 0x80, 0xd0, 0x90)[h % 4]
     return (R.encode(m) if m is not None else None), (h, e)
 
 
